@@ -104,6 +104,21 @@ func genConcCase(t *rapid.T) *ConcCase {
 			}
 			continue
 		}
+		if i == 1 {
+			// set operations over a list from the environment (three distinct elements: assembled
+			// with Add its slice has spare capacity) and a right operand built per evaluation
+			l := g.FreshVar(m.List(m.Str), m.VList(m.Str, m.VStr("a"), m.VStr("b"), m.VStr("c")))
+			sv := g.FreshVar(m.Str, nil)
+			switch rapid.IntRange(0, 2).Draw(t, "setkind") {
+			case 0:
+				c.Exprs = append(c.Exprs, m.Call("string", m.Call("union", l, m.ListE(sv, m.Lit("str", `"z"`)))))
+			case 1:
+				c.Exprs = append(c.Exprs, m.Call("len", m.Call("union", l, m.Call("union", m.ListE(sv), l.Clone()))))
+			default:
+				c.Exprs = append(c.Exprs, m.Call("string", m.ListE(m.Call("diff", l, m.ListE(sv)), m.Call("intersect", l.Clone(), m.ListE(sv.Clone(), m.Lit("str", `"a"`))))))
+			}
+			continue
+		}
 		if rapid.IntRange(0, 2).Draw(t, "renders") == 0 {
 			// programs whose first evaluation renders / hashes composite values built from literals
 			// (type objects hanging off the shared compiled expression): string(), set operations
@@ -155,7 +170,7 @@ func genConcCase(t *rapid.T) *ConcCase {
 		wk := CWorker{Spin: rapid.IntRange(0, 2000).Draw(t, "spin")}
 		k := rapid.IntRange(2, 8).Draw(t, "nops")
 		for j := 0; j < k; j++ {
-			wk.Ops = append(wk.Ops, COp{Kind: pick2(t, []string{"own", "own", "shared", "invoke", "invoke", "eval", "tree", "reject", "debug"}), Prog: rapid.IntRange(0, n-1).Draw(t, "prog"), Var: rapid.IntRange(0, c.NVar).Draw(t, "var")})
+			wk.Ops = append(wk.Ops, COp{Kind: pick2(t, []string{"own", "own", "shared", "invoke", "invoke", "eval", "tree", "reject", "debug", "invoke-shared-env"}), Prog: rapid.IntRange(0, n-1).Draw(t, "prog"), Var: rapid.IntRange(0, c.NVar).Draw(t, "var")})
 		}
 		c.Workers = append(c.Workers, wk)
 	}
@@ -219,6 +234,13 @@ func checkConc(c *ConcCase) *Outcome {
 	}
 	en := run.NewEngine(run.VMSwitch, nil)
 	freshVals := func(k int) *val.Env { return en.ValEnv(variants[k]) }
+	// one pre-built environment object per variant that every goroutine may hand to a shared
+	// Callable (evaluation only reads it); its containers are assembled with ListVal.Add /
+	// MapVal.Put, as a host that builds values by hand does (slices with spare capacity)
+	sharedEnvs := make([]*val.Env, len(variants))
+	for k := range variants {
+		sharedEnvs[k] = en.ValEnvIncremental(variants[k])
+	}
 	// ---- sequential baseline BEFORE the concurrent phase: each program alone on variant 0.
 	// (The salted variants get their baseline AFTER the concurrent phase: running
 	// them alone first would hand every text-keyed process-wide cache its entries
@@ -394,6 +416,11 @@ func checkConc(c *ConcCase) *Outcome {
 					} else {
 						p = run.Guard(func() { v, err = sharedCl[op.Prog](venv) })
 					}
+				case "invoke-shared-env":
+					if sharedEnvs[op.Var] != nil {
+						venv = sharedEnvs[op.Var]
+					}
+					p = run.Guard(func() { v, err = sharedCl[op.Prog](venv) })
 				default:
 					p = run.Guard(func() { v, err = sharedCl[op.Prog](venv) })
 				}
@@ -473,7 +500,7 @@ func checkConc(c *ConcCase) *Outcome {
 var c14 = Register(&Prop[ConcCase]{ID: "C14", Name: "concurrent-workloads", Gen: genConcCase, Check: checkConc})
 
 func TestC14(t *testing.T) {
-	R.Rule = "generated workloads under the race detector: 4-32 goroutines, each a drawn sequence of 2-8 operations over 2-6 generated programs (mono / poly calls, built-in and user-registered lazy functions incl. ones that force a thunk twice, dynamic calls, literals, programs that render or hash object literals on their first evaluation): compile + invoke on an engine of its own, compile on a shared engine that has finished its first compilation (an accepted one, one refused by the parser, or one refused by the type checker), invoke a shared callable, one-shot Eval, compile one shared parsed tree (Expr.Parse once, Expr.CompileExpr per goroutine on an engine of its own), one-shot Debug (over the host struct, or of a closed program with no environment; value and report must be the ones it gives alone), compile a source that is refused (a program cut short, with a closer missing, a dangling operator or an unknown name) on an engine of its own - the error text, positions included, must be the one the same source gets alone; drawn busy-spin start offsets; oracle: no race report (the detector halts the run; the workload is the replay file) and the environment's values in 1-5 variants (the drawn values, and copies whose every string carries a salt unique to the workload, so that built-ins working on run-time text — match with the pattern from the environment in at least one program per workload — meet text new to the process while other goroutines are inside them); every operation's outcome equals the outcome of the same operation run alone (beforehand for the drawn values, afterwards for the salted ones); non-trivial = at least half of the workload's operations started while another goroutine was inside yae (atomic in-flight counter)"
+	R.Rule = "generated workloads under the race detector: 4-32 goroutines, each a drawn sequence of 2-8 operations over 2-6 generated programs (mono / poly calls, built-in and user-registered lazy functions incl. ones that force a thunk twice, dynamic calls, literals, programs that render or hash object literals on their first evaluation, set operations over a list from the environment): compile + invoke on an engine of its own, compile on a shared engine that has finished its first compilation (an accepted one, one refused by the parser, or one refused by the type checker), invoke a shared callable (with an environment of its own, or with ONE pre-built environment object shared by all goroutines, its containers assembled through ListVal.Add / MapVal.Put), one-shot Eval, compile one shared parsed tree (Expr.Parse once, Expr.CompileExpr per goroutine on an engine of its own), one-shot Debug (over the host struct, or of a closed program with no environment; value and report must be the ones it gives alone), compile a source that is refused (a program cut short, with a closer missing, a dangling operator or an unknown name) on an engine of its own - the error text, positions included, must be the one the same source gets alone; drawn busy-spin start offsets; oracle: no race report (the detector halts the run; the workload is the replay file) and the environment's values in 1-5 variants (the drawn values, and copies whose every string carries a salt unique to the workload, so that built-ins working on run-time text — match with the pattern from the environment in at least one program per workload — meet text new to the process while other goroutines are inside them); every operation's outcome equals the outcome of the same operation run alone (beforehand for the drawn values, afterwards for the salted ones); non-trivial = at least half of the workload's operations started while another goroutine was inside yae (atomic in-flight counter)"
 	R.Assume = []string{"the Go scheduler owns the interleaving: this samples schedules, it does not enumerate them", "the race detector has no false positives"}
 	reportKnown(t, "C14")
 	runRegress(t, "C14")
